@@ -271,6 +271,13 @@ func pairAlphabets(thorough bool) map[string][]call {
 		}
 		add("az", azFills[0](n), 23, -2)
 		add("az", azFills[0](n), 50, 3)
+		if n <= 16 {
+			// the same payload as a compact and as a full-range symbol of the same layer count
+			for _, l := range []int{1, 2, 3, 4} {
+				add("az", azFills[1](n), 23, -l)
+				add("az", azFills[1](n), 23, l)
+			}
+		}
 	}
 	// linear families
 	for ck := 0; ck <= 1; ck++ {
